@@ -215,7 +215,7 @@ func runCheck(repo, verif, prop, tier string, update bool) int {
 	var violations, known []string
 	var effReports []*OblReport
 	discharged, nclaimed := 0, 0
-	var undecided []map[string]string
+	undecided := []map[string]string{}
 	perSolver := map[string]int{}
 	solverMs := map[string]int64{}
 	findingFor := func(name string) *Finding {
@@ -565,6 +565,14 @@ func writeEvidence(verif, prop, tier string, seed int, eng *Engine, fvs []*FuncV
 		"load_s":                   loadS,
 		"vcgen_s":                  genS,
 		"explanation":              "each obligation is one SMT query (precondition ∧ path ∧ ¬goal) generated from the current source of the function under contract; unsat = discharged for all inputs",
+	}
+	var frags []map[string]interface{}
+	for k, fi := range fragReport {
+		frags = append(frags, map[string]interface{}{"fragment": k, "file": strings.TrimPrefix(fi.File, eng.repo+"/"), "lines": fmt.Sprintf("%d-%d", fi.From, fi.To), "free_variables_as_parameters": fi.Params,
+			"exit_rewrites": fi.Rewrite, "dropped": "the surrounding interpreter loop and the other cases; returns rewritten to (false, results...), falling off the end / continue to (true, zero results)", "error": fi.Err})
+	}
+	if len(frags) > 0 {
+		cov["fragments"] = frags
 	}
 	ev := map[string]interface{}{
 		"property_id": prop, "tier": tier, "seed": seed, "level": "proof", "coverage": cov,
